@@ -49,7 +49,7 @@ CODES = {1: "selected column is not of maximal correlation", 2: "cols bookkeepin
          12: "orthonormal dictionary: k-sparse vector not recovered in k steps",
          13: "proved model (Solvers/OMP.v) differs from executed replay", 14: "solve() and manual driving disagree"}
 
-MYFILES = ["Solvers/OMP.v", "Corr/CheckC14.v", "Props/C14.v"]
+MYFILES = ["Solvers/OMP.v", "Solvers/OMPExact.v", "Corr/CheckC14.v", "Props/C14.v"]
 
 
 def build_own():
